@@ -54,7 +54,7 @@ type MonC04 struct {
 
 func NewMonC04() *MonC04 { return &MonC04{} }
 func (m *MonC04) Prop() string { return "C04" }
-func (m *MonC04) Init(w *World) { m.committed = map[uint64]*committedRec{} }
+func (m *MonC04) Init(w *World) { m.committed, m.maxIdx = map[uint64]*committedRec{}, InitIndex }
 func (m *MonC04) History(b []byte) []byte { return histEntries(b, m.committed) }
 func (m *MonC04) Clone() Monitor {
 	m.shared = true
@@ -148,7 +148,7 @@ type MonC06 struct {
 
 func NewMonC06() *MonC06 { return &MonC06{} }
 func (m *MonC06) Prop() string { return "C06" }
-func (m *MonC06) Init(w *World) { m.leaderCommitted = map[uint64]*committedRec{} }
+func (m *MonC06) Init(w *World) { m.leaderCommitted, m.maxIdx = map[uint64]*committedRec{}, InitIndex }
 func (m *MonC06) History(b []byte) []byte { return histEntries(b, m.leaderCommitted) }
 func (m *MonC06) Clone() Monitor {
 	m.shared = true
